@@ -186,6 +186,40 @@ Definition e_smtp (v : val) : val :=
   | _ => verr
   end.
 
+(* ---------------- HTTP client ---------------- *)
+Definition dec_hsrv (v : val) : option hsrv :=
+  match v with
+  | VN 0 => Some HOk | VN 1 => Some HRej | VN 2 => Some HRefused | VN 3 => Some HTimeout
+  | VN 4 => Some HHangup | _ => None
+  end.
+
+Definition dec_hpoll (v : val) : option hpoll_item :=
+  match v with
+  | VL [] => Some None
+  | VL [VN slot; VN env; h] =>
+      match dec_hsrv h with Some h' => Some (Some (mkReq slot env, h')) | None => None end
+  | _ => None
+  end.
+
+Definition enc_hwire (w : hwire) : val :=
+  match w with
+  | HRequest e => VL [VN 0; VN e] | HConnect => VL [VN 1] | HResponse e => VL [VN 2; VN e]
+  | HCloseW => VL [VN 3] | HResultW e ok => VL [VN 4; VN e; vbool ok]
+  end.
+
+Definition e_http (v : val) : val :=
+  match v with
+  | VL [VN reuse; VL polls] =>
+      match dec_all dec_hpoll polls with
+      | Some ps =>
+          let '(w, a, x) := http_run (negb (reuse =? 0)) ps in
+          VL [VL (map enc_hwire w); VL (map enc_act a); vbool x;
+              vbool (http_clean HClean w); vbool (follows_contract HBusy a)]
+      | None => verr
+      end
+  | _ => verr
+  end.
+
 Definition entries : list entry :=
   [("c19_deque"%string, e_deque); ("c19_run"%string, e_run); ("c19_fifo"%string, e_fifo);
-   ("c19_smtp"%string, e_smtp)].
+   ("c19_smtp"%string, e_smtp); ("c19_http"%string, e_http)].
